@@ -22,6 +22,7 @@ import Mathlib.LinearAlgebra.Matrix.Kronecker
 import QV.Real
 import QV.Model.Cplx
 import QV.Lemmas.CplxTensor
+import QV.Lemmas.CplxStorage
 
 namespace QV.Props
 namespace C15
@@ -314,6 +315,70 @@ theorem C15_scalar_mult_out {x y o : Obj α} {sx sy r : List Nat} (f1 f2 : Nat) 
   · simp only [scalarMultO, ht, hz, ok_bind, pure_eq_ok]
   · simp only [scalarMultO, if_neg hna, ht, resultShape_eq hx hy hb, ok_bind, hs, ne_eq, not_true_eq_false,
       if_false, hz, pure_eq_ok]
+
+/-- **out= buffers are judged by what they SHOW, not by where they live** (cplx.py:101-109 after fix 96aa40c): let `x`, `y`,
+`o` be arbitrary strided views of one memory `m` — `o` may be non-contiguous (transposed buffer, column or stepped slice of a
+workspace) and may share any number of cells with `x` and/or `y` (a different object on the same storage: `x[...]`,
+`x.detach()`, overlapping windows), only its own entries must occupy distinct cells (`Nodup`: not an expanded view). If the
+shape test passes, the call succeeds, what `o` shows afterwards is exactly `scalar_mult` of what `x` and `y` showed BEFORE the
+call, and every cell outside `o` is unchanged.  (The pre-fix order — real part written before the imaginary part is computed
+— does not satisfy this when `o` overlaps an operand.) -/
+theorem C15_scalar_mult_out_storage (m : Nat → α) (x y o : View) {z : Tensor α}
+    (hrs : resultShape (readView m x) (readView m y) = .ok o.shape)
+    (hz : scalarMult (readView m x) (readView m y) = .ok z)
+    (hlen : o.addr.length = z.data.length) (hnd : o.addr.Nodup) :
+    ∃ m2, scalarMultMem m x y o = .ok (m2, z) ∧ ∀ a, a ∉ o.addr → m2 a = m a := by
+  have hshape : z.shape = o.shape := scalarMult_shape hrs hz
+  set n := numel (o.shape.drop 1) with hn
+  set m1 := writeList m (o.addr.take n) (z.data.take n) with hm1
+  set m2 := writeList m1 (o.addr.drop n) (z.data.drop n) with hm2
+  have hsplit : (o.addr.take n ++ o.addr.drop n).Nodup := by rw [List.take_append_drop]; exact hnd
+  have hdisj := List.disjoint_of_nodup_append hsplit
+  refine ⟨m2, ?_, ?_⟩
+  · have hread : readView m2 o = z := by
+      have hdata : o.addr.map m2 = z.data := by
+        conv_lhs => rw [← List.take_append_drop n o.addr]
+        conv_rhs => rw [← List.take_append_drop n z.data]
+        rw [List.map_append]
+        congr 1
+        · have : (o.addr.take n).map m2 = (o.addr.take n).map m1 :=
+            List.map_congr_left (fun a ha => writeList_of_notMem _ _ _ _ (fun hd => hdisj ha hd))
+          rw [this, hm1]
+          exact map_writeList _ _ _ (List.nodup_append.mp hsplit).1 (by simp [hlen])
+        · rw [hm2]
+          exact map_writeList _ _ _ (List.nodup_append.mp hsplit).2.1 (by simp [hlen])
+      cases z with
+      | mk zs zd =>
+        simp only [readView] at hdata ⊢
+        simp only at hshape
+        rw [hdata, hshape]
+    simp only [scalarMultMem, hrs, ok_bind, ne_eq, not_true_eq_false, if_false, hz, pure_eq_ok]
+    rw [← hn, ← hm1, ← hm2, hread]
+  · intro a ha
+    rw [hm2, writeList_of_notMem _ _ _ _ (fun h => ha (List.mem_of_mem_drop h)), hm1,
+      writeList_of_notMem _ _ _ _ (fun h => ha (List.mem_of_mem_take h))]
+
+/-- the same for well-formed complex operands: every correctly shaped, non-self-overlapping `out=` view — contiguous or
+not, sharing storage with the operands or not — ends up showing the entrywise complex product (under broadcasting) of the
+operands as they were; a view of any other shape is refused with `ValueError` (and nothing is written). -/
+theorem C15_scalar_mult_out_view (m : Nat → α) (x y o : View) {sx sy r : List Nat}
+    (hx : IsCplx (readView m x) sx) (hy : IsCplx (readView m y) sy) (hb : broadcastShape sx sy = .ok r) :
+    (o.shape ≠ 2 :: r → scalarMultMem m x y o = .error .ValueError) ∧
+    (o.shape = 2 :: r → o.addr.length = numel o.shape → o.addr.Nodup →
+      ∃ m2 z, scalarMultMem m x y o = .ok (m2, z) ∧ IsCplx z r ∧
+        (∀ idx, Valid r idx → centry z idx =
+          C.mul (centry (readView m x) (bidx sx idx)) (centry (readView m y) (bidx sy idx))) ∧
+        ∀ a, a ∉ o.addr → m2 a = m a) := by
+  have hrs := resultShape_eq hx hy hb
+  constructor
+  · intro hne
+    simp only [scalarMultMem, hrs, ok_bind, ne_eq, hne, not_false_eq_true, if_true]
+  · intro hs hl hnd
+    obtain ⟨z, hz, hc, he⟩ := C15_scalar_mult hx hy hb
+    have hzl : o.addr.length = z.data.length := by
+      have := hc.2; unfold WF at this; rw [this, hc.1, hl, hs]
+    obtain ⟨m2, h2, hframe⟩ := C15_scalar_mult_out_storage m x y o (by rw [hs]; exact hrs) hz hzl hnd
+    exact ⟨m2, z, h2, hc, he, hframe⟩
 
 /-- **no accepted call returns a wrong object or a value of the wrong shape** — for ARBITRARY operands (well-formed
 or not): whenever `scalar_mult(x, y, out=o)` returns, `o` aliases neither operand, the result is `o` itself (identity,
